@@ -60,6 +60,20 @@ pub fn layout_runtime() -> Runtime<NoCtx> {
     .expect("runtime")
 }
 
+/// record a violation unless enough with the same key prefix are recorded
+/// already (one flooding oracle must not crowd out the others)
+pub fn viol(rep: &mut Report, what: &str, key: &str, input: Value) {
+    let prefix = key.split(' ').next().unwrap_or(key);
+    let n = rep
+        .impl_violations
+        .iter()
+        .filter(|v| v["key"].as_str().map(|k| k.split(' ').next() == Some(prefix)).unwrap_or(false))
+        .count();
+    if n < 6 {
+        rep.violation(what, key, input);
+    }
+}
+
 pub fn strip_ansi(s: &str) -> String {
     let mut out = String::new();
     let mut it = s.chars().peekable();
@@ -240,22 +254,21 @@ fn check_props(d: &hook::Dump, t: &hook::TypeDump, script: &str, rep: &mut Repor
     let input = |extra: Value| json!({"kind": "layout", "script": script, "type": t.printed, "detail": extra});
     let Ok(Some((size, align))) = t.layout else {
         if let Err(m) = &t.layout {
-            rep.violation("layout_of panicked", "lowerer-panic layout_of", input(json!(m)));
+            viol(rep, "layout_of panicked", "lowerer-panic layout_of", input(json!(m)));
         }
         return;
     };
     // (1) no panic of the lowerer on an inhabited type
     for (what, r) in [("clone", &t.clone_ops), ("drop", &t.drop_ops), ("eq", &t.eq_ops)] {
         if let Some(Err(m)) = r {
-            rep.violation(
-                &format!("generating the {what} function of an inhabited type panics the compiler: {m}"),
+            viol(rep, &format!("generating the {what} function of an inhabited type panics the compiler: {m}"),
                 &format!("lowerer-panic generate_{what}"),
                 input(json!(m)),
             );
         }
     }
     if !align.is_power_of_two() || size % align != 0 {
-        rep.violation("layout not well-formed", "layout-wf", input(json!([size, align])));
+        viol(rep, "layout not well-formed", "layout-wf", input(json!([size, align])));
     }
     // (2) direct components: aligned, inside, pairwise disjoint per record / variant
     let mut groups: std::collections::BTreeMap<Option<usize>, Vec<(usize, u64, u64)>> = Default::default();
@@ -288,8 +301,7 @@ fn check_props(d: &hook::Dump, t: &hook::TypeDump, script: &str, rep: &mut Repor
                 if let Ok(Some((cs, ca))) = d.types[child].layout {
                     let off = *off as u64;
                     if off % ca as u64 != 0 || off + cs as u64 > size as u64 || (v.is_some() && off < 1) {
-                        rep.violation(
-                            "component misplaced (alignment / bounds / tag overlap)",
+                        viol(rep, "component misplaced (alignment / bounds / tag overlap)",
                             "component-misplaced",
                             input(json!({"path": path_str(p), "off": off, "size": cs, "align": ca, "total": size})),
                         );
@@ -303,8 +315,7 @@ fn check_props(d: &hook::Dump, t: &hook::TypeDump, script: &str, rep: &mut Repor
         for a in g {
             for b in g {
                 if a.0 < b.0 && a.1 + a.2 > b.1 && a.2 > 0 && b.2 > 0 {
-                    rep.violation(
-                        "two components of one record / variant overlap",
+                    viol(rep, "two components of one record / variant overlap",
                         "components-overlap",
                         input(json!({"variant": v, "a": [a.0, a.1, a.2], "b": [b.0, b.1, b.2]})),
                     );
@@ -362,15 +373,13 @@ fn check_props(d: &hook::Dump, t: &hook::TypeDump, script: &str, rep: &mut Repor
             };
             // clone: zero-sized components are not copied either
             if co != nz {
-                rep.violation(
-                    "offsets used by the generated clone function differ from Lowerer::location's",
+                viol(rep, "offsets used by the generated clone function differ from Lowerer::location's",
                     "offsets-disagree clone",
                     input(json!({"location": nz, "clone": co})),
                 );
             }
             if eo != nz {
-                rep.violation(
-                    "offsets compared by the generated eq function differ from Lowerer::location's",
+                viol(rep, "offsets compared by the generated eq function differ from Lowerer::location's",
                     "offsets-disagree eq",
                     input(json!({"location": nz, "eq": eo})),
                 );
@@ -381,8 +390,7 @@ fn check_props(d: &hook::Dump, t: &hook::TypeDump, script: &str, rep: &mut Repor
         let dofs = offsets_in(dr, &["drop", "call drop"], "val");
         for o in dofs {
             if !loc.contains(&o) {
-                rep.violation(
-                    "generated drop function releases at an offset where Lowerer::location puts no component",
+                viol(rep, "generated drop function releases at an offset where Lowerer::location puts no component",
                     "offsets-disagree drop",
                     input(json!({"location": loc, "drop": o})),
                 );
@@ -408,8 +416,7 @@ fn run_layout_case(
             return;
         }
         Err(_) => {
-            rep.violation(
-                "compiling (to MIR) a well-typed script panics",
+            viol(rep, "compiling (to MIR) a well-typed script panics",
                 "compile-panic mir",
                 json!({"kind": "layout", "script": script}),
             );
@@ -495,7 +502,7 @@ fn main() {
             let tier = args.get(3).map(|s| s.as_str()).unwrap_or("quick");
             let (n_layout, n_beh) = match tier {
                 "thorough" => (40000, 30000),
-                "search" => (6000, 6000),
+                "search" => (4000, 4000),
                 _ => (2000, 1500),
             };
             let mut rep = Report::default();
